@@ -246,6 +246,22 @@ CHECKS = {
          "signs and verifies). Found and fixed: F39, F41, F42; listed: F40 (invalid explicit input lists are accepted)."),
    design_ref='DESIGN.md §5 C07',
    note=COMMON_NOTE + "Rows with equal (confirmations, value) may come back from SQLite in either order; selections differing only in such ties count as equal. WalletTransaction.bumpfee's fallback (adding an input) and send()'s fee re-estimation are exercised through C08 histories, not modelled."),
+ 'C09': dict(
+   technique='Lean 4: key-structure table (generated from config.py) pinned against BIP44/45/48/49/84 by decide, symbolic path theorems for every variable value, injectivity, and an invariant proof over all histories of a key-row machine (no repeated index; no gaps for new_key/get_key histories) + history correspondence with real wallets, every key re-derived with the Lean BIP32/address functions, wallets re-created from seed / mnemonic / xprv / account xpub',
+   text=("Proved in Lean: the generated WALLET_KEY_STRUCTURES table has exactly one structure per (witness type, multisig) with purpose 44/49/84 "
+         "(single) and 45/48 (multisig), the documented level order and hardened levels; for EVERY coin type, account, change, index the expanded "
+         "path is m/purpose'/coin'/account'/change/index (BIP45/48 variants for multisig, script type 1'/2'); equal paths imply equal "
+         "(witness type, coin, account, change, index); for EVERY history of new_keys / get_keys / key-used / key_for_path operations each key row "
+         "lies at the path of its chain and index and no chain holds an index twice; for every history without explicit key_for_path the "
+         "indices of each chain are exactly 0..k-1 in creation order and the next index is the number of keys. The machine is compared step by "
+         "step with real HD wallets (legacy / p2sh-segwit / segwit; bitcoin, testnet, litecoin, dogecoin; created from HDKey, mnemonic with "
+         "and without passphrase, xprv string; mixed witness types, several accounts, new_key, new_key_change, get_key(s), new_keys, "
+         "key_for_path, keys becoming used, reopen); every key handed out and every leaf row is re-derived from the seed by the Lean BIP32 model "
+         "and its address recomputed by the Lean address model; keys.path_expand is compared on partial paths with all hardened spellings; "
+         "wallets are re-created from seed, mnemonic, xprv and (watch-only) account xpub and must reproduce the addresses. "
+         "Found and fixed: F43, F44."),
+   design_ref='DESIGN.md §5 C09',
+   note=COMMON_NOTE + "Histories run on single-signature HD wallets; multisig key paths are covered by the table and path theorems and by the cosigner-wallet comparison of C10."),
 }
 
 NOT_YET = {}
